@@ -125,7 +125,7 @@ def build(lp):
     order = lp.get('order')
     if order is None:
         order = [ti for ti, t in enumerate(types) for _ in range(t['n'])]
-    sets = [c03.FILE_HEADER, c03.ORIGIN, channel_set(types), frame_set(types)]
+    sets = [c03.FILE_HEADER, c03.ORIGIN_FULL if lp.get('origin') == 'full' else c03.ORIGIN, channel_set(types), frame_set(types)]
     recs = [{'eflr': True, 'type': c03.lrtype_for(s), 'payload': c03.encode_set(s)} for s in sets]
     seen = [0] * len(types)
     iflr_rec_index = [[] for _ in types]
